@@ -183,15 +183,42 @@ contract(F, "__sub__.sub_iterator.__iter__", types=dict(self="sub_iterator"),
 
 # ---------------------------------------------------------------- populate (C05, C01, C02): leaf rank, collection off
 A = "self.a_fiber"
+# the boxes of the destination are pairwise different objects (otherwise writing one offered reference writes another element too)
+PAYLOADS_DISTINCT = "forall(lambda i, j: implies(i < j, not (%s.payloads[i] is %s.payloads[j])), 0, len(%s.payloads))" % (A, A, A)
+PAYLOADS_ALLOCATED = "forall(lambda k: allocated(%s.payloads[k]), 0, len(%s.payloads))" % (A, A)
+KEPT_ONLY_WRITTEN = ("forall(lambda k, j: implies(0 <= k and k < %%s and 0 <= j and j < len(%s.coords) and %s.coords[j] == %%s[k][0], "
+                     "%s.payloads[j].value != %s.g_default))" % (A, A, A, A))
 LSHIFT_REQ = ["wf(%s)" % A, "isnone(%s._max_coord)" % A, "%s.g_leaf" % A,
               "forall(lambda k: typeis(%s.payloads[k], 'Payload'), 0, len(%s.payloads))" % (A, A),
               "wf(self.b_fiber)", "not (self.a_fiber is self.b_fiber)", "not Metrics.collecting", "isnone(self.spec_pos)",
               # leaf rank: no next rank to pop from
-              "isnone(%s._owner) or isnone(val(%s._owner).next_rank)" % (A, A)]
+              "isnone(%s._owner) or isnone(val(%s._owner).next_rank)" % (A, A),
+              PAYLOADS_DISTINCT, PAYLOADS_ALLOCATED]
 LSHIFT_MOD = ["list:%s.coords" % A, "list:%s.payloads" % A, "%s._saved_pos" % A, "%s._saved_count" % A, "%s._saved_dist" % A,
               "any:Payload.value"]
 
-contract(F, "__lshift__.lshift_iterator.__iter__", types=dict(self="lshift_iterator"), verify=False, tier="B",
+contract(F, "__lshift__.lshift_iterator.__iter__", types=dict(self="lshift_iterator"), tier="P",
+         lemmas={"new_a_payload = a_payload is None": [
+             # the search position splits the destination's coordinates around b_coord ...
+             "0 <= a_pos <= len(%s.coords)" % A,
+             "forall(lambda k: %s.coords[k] < b_coord, 0, a_pos)" % A,
+             "forall(lambda k: %s.coords[k] >= b_coord, a_pos, len(%s.coords))" % (A, A),
+             "forall(lambda k: %s.coords[k] > b_coord, a_pos + 1, len(%s.coords))" % (A, A),
+             "implies(not (a_pos < len(%s.coords) and %s.coords[a_pos] == b_coord), forall(lambda k: %s.coords[k] != b_coord, 0, len(%s.coords)))" % (A, A, A, A),
+             # ... so the destination holds b_coord exactly when that position addresses it
+             "implies(a_pos < len(%s.coords) and %s.coords[a_pos] == b_coord, not new_a_payload)" % (A, A),
+             "implies(not (a_pos < len(%s.coords) and %s.coords[a_pos] == b_coord), new_a_payload)" % (A, A)],
+             # the element removed again is the one at the search position, and b_coord is then absent
+             "index = bisect.bisect_left(": ["index == a_pos"],
+             # what is offered: the box stored at b_coord in the destination, showing the default when it was just created
+             "before:(a_payload, b_payload)": [
+                 "a_pos < len(%s.coords) and %s.coords[a_pos] == b_coord and a_payload is %s.payloads[a_pos]" % (A, A, A),
+                 "typeis(a_payload, 'Payload')",
+                 "implies(new_a_payload, a_payload.value == %s.g_default)" % A],
+             "a_pos += 1": [
+                 "forall(lambda j: implies(%s.coords[j] == b_coord, %s.payloads[j].value != %s.g_default), 0, len(%s.coords))" % (A, A, A, A),
+                 KEPT_ONLY_WRITTEN % ("b_pos", "b.seq")],
+             "del self.a_fiber.payloads[index]": ["forall(lambda k: %s.coords[k] != b_coord, 0, len(%s.coords))" % (A, A)]},
          yields=dict(elem="tuple[int,tuple[Payload|Fiber,Payload|Fiber]]",
                      # "all loop bodies": at a yield the consumer may write the value of the box it was handed, nothing else
                      consumer_may_modify=["yielded[1][0].value"]),
@@ -200,7 +227,10 @@ contract(F, "__lshift__.lshift_iterator.__iter__", types=dict(self="lshift_itera
              "wf(%s)" % A,
              "forall(lambda k: typeis(%s.payloads[k], 'Payload'), 0, len(%s.payloads))" % (A, A),
              "len(out) == len(final(b).seq)",
-             "forall(lambda k: out[k][0] == final(b).seq[k][0] and out[k][1][1] is final(b).seq[k][1], 0, len(out))"]},
+             "forall(lambda k: out[k][0] == final(b).seq[k][0] and out[k][1][1] is final(b).seq[k][1], 0, len(out))",
+             # coordinates the body left at the default leave no element behind
+             KEPT_ONLY_WRITTEN % ("len(out)", "out"),
+             PAYLOADS_DISTINCT]},
          loops={0: dict(
              types={"b_coord": "int", "b_payload": "Payload|Fiber", "a_pos": "int", "b_pos": "int", "maybe_remove": "bool"},
              modifies=LSHIFT_MOD,
@@ -212,12 +242,14 @@ contract(F, "__lshift__.lshift_iterator.__iter__", types=dict(self="lshift_itera
                  "(_i0 == 0 and a_pos == 0) or (_i0 > 0 and forall(lambda k: %s.coords[k] <= b.seq[_i0 - 1][0], 0, a_pos))" % A,
                  "b.cur == _i0" if False else "True",
                  "len(out) == _i0",
-                 "forall(lambda k: out[k][0] == b.seq[k][0] and out[k][1][1] is b.seq[k][1], 0, len(out))"])},
-         note="NOT CLAIMED AS PROVED: with verify=True pyvc generates 950 obligations from the real body and discharges 930; the remaining 20 "
-              "(index of the re-bisect before del, and the a_pos bounds after a removal, on the removal paths) are solver-unstable "
-              "(unknown at 60 s in z3 and cvc5), so the function is tier B.  "
-              "Scope of the attempted contract: leaf destination rank, no start position, collection off.  Content clauses (what stays behind, untouched coordinates) and interior "
-              "ranks with the next-rank pop are decided by C05's bounded part")
+                 "forall(lambda k: out[k][0] == b.seq[k][0] and out[k][1][1] is b.seq[k][1], 0, len(out))",
+                 PAYLOADS_ALLOCATED,
+                 PAYLOADS_DISTINCT,
+                 KEPT_ONLY_WRITTEN % ("_i0", "b.seq")])},
+         note="Scope: leaf destination rank, no start position, collection off. The body of the consumer loop is modelled as an arbitrary write to the value "
+              "of the box offered at that yield. Intermediate assertions (lemmas) carry the position argument: the search position splits the destination's "
+              "coordinates around b_coord, so the destination holds b_coord exactly when a_pos addresses it. Untouched coordinates, interior ranks with the "
+              "next-rank pop, nesting and tracing are decided by C05's bounded part")
 
 # ---------------------------------------------------------------- shape iteration (C07)
 SHAPE_REQ = ["wf(self)", "isnone(self._max_coord)", "self.g_leaf", "not Metrics.collecting", "step >= 1",
